@@ -125,7 +125,7 @@ func c06Gen(tier string, seed int64) []fw.Case {
 		}
 		add(c06Desc{Kind: "local", Role: role, Codes: []int{1005}, Reasons: []int{0, 1, 50, 123, 124, 130}}, fmt.Sprintf("local/%s/1005", role))
 		// (B) placements
-		for _, place := range []string{"before-any-message", "between-messages", "after-messages", "read-pending", "read-pending-after-messages"} {
+		for _, place := range []string{"before-any-message", "between-messages", "after-messages", "read-pending", "read-pending-after-messages", "close-then-transport-closed", "close-then-transport-reset", "read-pending-close-then-transport-closed"} {
 			add(c06Desc{Kind: "peer", Role: role, Codes: append([]int{1005}, c06RepCodes...), Reasons: []int{0, 7, 123}, Place: place}, fmt.Sprintf("peer/%s/%s", role, place))
 			add(c06Desc{Kind: "peer", Role: role, Codes: []int{0, 999, 1004, 1006, 1015, 1016, 2999, 5000, 65535}, Reasons: []int{0, 7}, Place: place}, fmt.Sprintf("peer/%s/%s/invalid", role, place))
 		}
@@ -392,6 +392,17 @@ func c06Peer(r *fw.R, d c06Desc, code, rl int) {
 	}
 	var rerr error
 	pending := strings.HasPrefix(d.Place, "read-pending")
+	vanish := strings.Contains(d.Place, "close-then-transport")
+	afterClose := func() {
+		// the peer sent its Close frame and is gone: the echo cannot be written any more
+		if strings.HasSuffix(d.Place, "reset") {
+			// keep what was sent readable, fail the library's writes
+			peerEnd.CloseWrite()
+			peerEnd.Close()
+		} else {
+			peerEnd.Close()
+		}
+	}
 	if pending {
 		// the read is blocked before the Close frame is sent
 		sendMsgs()
@@ -405,6 +416,9 @@ func c06Peer(r *fw.R, d c06Desc, code, rl int) {
 		go func() { _, _, err := c.Read(ctx); done <- err }()
 		time.Sleep(200 * time.Microsecond)
 		peer.Send(wire.Close(pay))
+		if vanish {
+			afterClose()
+		}
 		select {
 		case rerr = <-done:
 		case <-time.After(15 * time.Second):
@@ -419,6 +433,9 @@ func c06Peer(r *fw.R, d c06Desc, code, rl int) {
 			peer.Send(wire.Data(wire.OpText, true, []byte("after-close")))
 		} else {
 			peer.Send(wire.Close(pay))
+			if vanish {
+				afterClose()
+			}
 		}
 		for i := 0; i < nBefore; i++ {
 			if _, _, err := c.Read(ctx); err != nil {
@@ -443,6 +460,11 @@ func c06Peer(r *fw.R, d c06Desc, code, rl int) {
 			r.Violate("C06/closestatus-differs", fmt.Sprintf("%s: CloseStatus = %d", what, websocket.CloseStatus(rerr)), "")
 		}
 		// echo
+		if vanish {
+			r.Count("peer_closes_then_vanished", 1)
+			c06PostCloseNoClose(r, c, what)
+			return
+		}
 		peer.Wait(10*time.Second, func() bool { return peer.Conf.CloseSeen })
 		peer.Locked(func() {
 			if !peer.Conf.CloseSeen {
